@@ -15,10 +15,12 @@ import (
 // Case: per-connection histories plus the interleaving (which connection
 // sends its next message).
 type Case struct {
-	NConn    int             `json:"nconn"`
-	Msgs     [][]script.CMsg `json:"msgs"`
-	Schedule []int           `json:"schedule"`
-	Classes  []string        `json:"classes,omitempty"`
+	NConn        int             `json:"nconn"`
+	Msgs         [][]script.CMsg `json:"msgs"`
+	Schedule     []int           `json:"schedule"`
+	Classes      []string        `json:"classes,omitempty"`
+	OptSeed      int             `json:"opt_seed,omitempty"`
+	CustomCaches bool            `json:"custom_caches,omitempty"`
 }
 
 const queriesPerConn = 6
@@ -65,7 +67,10 @@ func Run(c Case) (res core.Result) {
 			res.NonTrivial = true
 		}
 	}
-	cfg := script.Config{Table: Table(c.NConn), SetLimit: true, Limit: 1 << 15}
+	cfg := script.Config{Table: Table(c.NConn), SetLimit: true, Limit: 1 << 15, OptSeed: c.OptSeed, CustomCaches: c.CustomCaches}
+	if c.CustomCaches {
+		res.Labels = append(res.Labels, "user-supplied-caches")
+	}
 	mark := core.RaceMark()
 	env := script.Start(cfg)
 	defer env.Stop()
